@@ -1,0 +1,129 @@
+//go:build verif
+
+package app
+
+import (
+	"sort"
+	"time"
+
+	"github.com/f1bonacc1/process-compose/src/command"
+	"github.com/f1bonacc1/process-compose/src/pclog"
+	"github.com/f1bonacc1/process-compose/src/types"
+)
+
+// Seams and exports for the external verification harness (build tag "verif").
+
+// VerifCommander, when set, replaces the real commander of every launched process.
+var VerifCommander func(name string, conf *types.ProcessConfig, args []string) command.Commander
+
+// VerifBackoff, when set, replaces the restart back-off duration.
+var VerifBackoff func(name string, runCancelled bool) time.Duration
+
+func verifCommander(p *Process) command.Commander {
+	if VerifCommander == nil {
+		return nil
+	}
+	return VerifCommander(p.getName(), p.procConf, p.mergeExtraArgs())
+}
+
+func verifBackoff(p *Process) (time.Duration, bool) {
+	if VerifBackoff == nil {
+		return 0, false
+	}
+	return VerifBackoff(p.getName(), p.procRunCtx.Err() != nil), true
+}
+
+// VerifIsRestartable runs Process.isRestartable on a synthetic process.
+func VerifIsRestartable(policy string, maxRestarts, restarts, exitCode int, stopped bool) (restartable bool, stoppedAfter bool) {
+	conf := &types.ProcessConfig{Name: "p", ReplicaName: "p"}
+	conf.RestartPolicy.Restart = policy
+	conf.RestartPolicy.MaxRestarts = maxRestarts
+	p := &Process{procConf: conf, procState: &types.ProcessState{Restarts: restarts, ExitCode: exitCode}}
+	p.isStopped.Store(stopped)
+	r := p.isRestartable()
+	return r, p.isStopped.Load()
+}
+
+// VerifGetBackoffNanos runs Process.getBackoff for a configured backoff_seconds value.
+func VerifGetBackoffNanos(sec int) int64 {
+	conf := &types.ProcessConfig{Name: "p", ReplicaName: "p"}
+	conf.RestartPolicy.BackoffSeconds = sec
+	p := &Process{procConf: conf}
+	p.procRunCtx, p.runCancelFn = nil, nil
+	saved := VerifBackoff
+	VerifBackoff = nil
+	defer func() { VerifBackoff = saved }()
+	return int64(p.getBackoff())
+}
+
+// VerifReverseDeps runs runningProcessesReverseDependencies on synthetic running processes.
+// deps maps a replica name to the names it depends on; running lists the running replica names.
+func VerifReverseDeps(deps map[string][]string, running []string) map[string][]string {
+	r := &ProjectRunner{runningProcesses: map[string]*Process{}}
+	for _, n := range running {
+		conf := &types.ProcessConfig{Name: n, ReplicaName: n, DependsOn: types.DependsOnConfig{}}
+		for _, d := range deps[n] {
+			conf.DependsOn[d] = types.ProcessDependency{}
+		}
+		r.runningProcesses[n] = &Process{procConf: conf}
+	}
+	out := map[string][]string{}
+	for k, m := range r.runningProcessesReverseDependencies() {
+		l := []string{}
+		for n := range m {
+			l = append(l, n)
+		}
+		sort.Strings(l)
+		out[k] = l
+	}
+	return out
+}
+
+// VerifProject exposes the runner's project (read-only use by the harness).
+func (p *ProjectRunner) VerifProject() *types.Project { return p.project }
+
+// VerifProcessLogs exposes the log buffer registered for a name.
+func (p *ProjectRunner) VerifProcessLog(name string) *pclog.ProcessLogBuffer {
+	p.logsMutex.Lock()
+	defer p.logsMutex.Unlock()
+	return p.processLogs[name]
+}
+
+// VerifStateNames lists the keys of the process state map.
+func (p *ProjectRunner) VerifStateNames() []string {
+	p.statesMutex.Lock()
+	defer p.statesMutex.Unlock()
+	l := []string{}
+	for n := range p.processStates {
+		l = append(l, n)
+	}
+	sort.Strings(l)
+	return l
+}
+
+// VerifLogNames lists the keys of the log buffer map.
+func (p *ProjectRunner) VerifLogNames() []string {
+	p.logsMutex.Lock()
+	defer p.logsMutex.Unlock()
+	l := []string{}
+	for n := range p.processLogs {
+		l = append(l, n)
+	}
+	sort.Strings(l)
+	return l
+}
+
+// VerifRunningNames lists the keys of the running-process registry.
+func (p *ProjectRunner) VerifRunningNames() []string {
+	p.runProcMutex.Lock()
+	defer p.runProcMutex.Unlock()
+	l := []string{}
+	for n := range p.runningProcesses {
+		l = append(l, n)
+	}
+	sort.Strings(l)
+	return l
+}
+
+// VerifExitCode returns the project exit code recorded so far.
+func (p *ProjectRunner) VerifExitCode() int { return p.exitCode }
